@@ -63,6 +63,7 @@ class Gen:
         self.scalars = {}   # name -> type word
         self.arrays = {}    # name -> (type word, rows, cols, has_param)
         self.params = []
+        self.int_params = set()
         self.tags = set()
         self.lines = []
 
@@ -390,8 +391,12 @@ class Gen:
             for i in range(rows):
                 els = []
                 for j in range(cols):
-                    if self.coin(pp) and vt != "int" and not (rows == 1 and cols == 1):
+                    if self.coin(pp if vt != "int" else pp * 0.6) and not (rows == 1 and cols == 1):
                         els.append("{%s}" % self.param())
+                        if vt == "int":
+                            # a parameter among the elements of an int array: its values should be integers
+                            self.int_params.add(els[-1][1:-1])
+                            self.tags.add("int-array-with-param")
                         has_param = True
                     else:
                         saved = self.o["params"]
